@@ -2,7 +2,9 @@ package sim
 
 import (
 	"bytes"
+	"encoding/json"
 	"fmt"
+	"math"
 	"net/http"
 	"net/http/httptest"
 	"strings"
@@ -59,7 +61,37 @@ func (w *World) begin(t *Task, inj *Injection) *ReqRecord {
 	t.ticks = 0
 	t.exhausted = false
 	t.fuel = DefaultFuel
+	if t.fuelScale > 1 {
+		t.fuel = DefaultFuel * t.fuelScale
+	}
+	rec.Fuel = t.fuel
+	t.fuelScale = 0
 	return rec
+}
+
+// FuelScaleFor: the step budget is a liveness bound, not a performance bound - it has to stay
+// far above what a terminating computation needs. Most of the methods are polynomial in the
+// number of alternatives (ELECTRE's nested distillations roughly n^4), so the budget grows with
+// it, capped so that a request that really does not terminate is still cut off within seconds.
+func FuelScaleFor(body []byte) int64 {
+	if len(body) < 600 {
+		return 1
+	}
+	var v struct {
+		KnownAlternatives []json.RawMessage `json:"knownAlternatives"`
+	}
+	if json.Unmarshal(body, &v) != nil {
+		return 1
+	}
+	n := float64(len(v.KnownAlternatives))
+	if n <= 14 {
+		return 1
+	}
+	s := math.Pow(n/14, 4)
+	if s > 400 {
+		s = 400
+	}
+	return int64(math.Ceil(s))
 }
 
 func (w *World) end(t *Task) int64 {
